@@ -123,6 +123,12 @@ def main():
     ctx.descs, ctx.proto_order, ctx.proto_parsed = descs, order, parsed
     mod = importlib.import_module("props." + prop)
     if args.child:
+        try:        # die with the parent (it may be stopped by its watchdog)
+            import ctypes
+            import signal
+            ctypes.CDLL("libc.so.6").prctl(1, signal.SIGKILL)
+        except Exception:   # noqa
+            pass
         from google.protobuf.internal import api_implementation
         try:
             mod.run(ctx)
